@@ -124,6 +124,9 @@ func OwnedBy(m Mismatch, a map[string]any, prop string) bool {
 
 		return false
 	}
+	if strings.HasPrefix(m.Kind, "dispatch.") && (prop == "C09" || (prop == "C18" && m.Kind == "dispatch.hang")) {
+		return true
+	}
 	if m.Kind == "codec" && prop == "C11" {
 		return true
 	}
